@@ -362,6 +362,7 @@ class Path:
         for a in self.axioms:
             self.solver.add(a)
         self.feas_checks = 0
+        self.loop_k = {}            # loop-spec name -> iteration index term of the step being proved
 
     def fresh(self, base, sort=Val):
         return self.names.fresh(base, sort)
